@@ -10,16 +10,23 @@ STYLES = ["piggy", "sepcon", "sepnon", "async", "trigger"]
 METHODS = [1, 2, 3, 4, 5]
 
 
-def setup(exe, seed, style, latency=5):
+def setup(exe, seed, style, latency=5, echo=False):
     w = world.World(exe, seed=seed)
     sim = world.Sim(w, latency=latency)
-    sim.add_node(0)
+    if echo:
+        sim.add_node(0, block_mode=1)
+    else:
+        sim.add_node(0)
     sim.add_node(1)
     sim.cmd("ep 1 udp 10.0.0.2:5683")
     # "trigger": the server defers with an untimed async entry (delay 0) and answers when its
     # application says so (coap_async_trigger()), here 700 ms after the request was taken
     cfg = {"piggy": "", "sepcon": "sep=40", "sepnon": "sep=40 rtype=1",
            "async": "sep=900", "trigger": "sep=0"}[style]
+    if echo:
+        # responses that carry an Echo option (RFC 9175); a client that lets libcoap handle
+        # block-wise transfers also lets it carry the Echo value into its next request
+        cfg += " ropts=252=aabbccdd"
     sim.cmd("res 1 %s body=fixed:%s %s" % (b"r".hex(), b"answer".hex(), cfg))
     sim.cmd("sess 0 0 udp 10.0.0.2:5683")
     if style == "trigger":
@@ -229,6 +236,13 @@ def judge(run, sim, reqs, fail_tokens, witness, stats, lossless, refused=()):
                                        len(rsp[ev["tok"]])))
                     del pending[ev["tok"]]
         stats["deferred_exchanges"] = stats.get("deferred_exchanges", 0) + 1
+    # an acknowledgement is an Empty message: 4 bytes (RFC 7252 4.1)
+    for x in tx_client:
+        xb = bytes.fromhex(x["b"])
+        if len(xb) > 4 and xb[1] == 0:
+            run.violation("malformed-acknowledgement", dict(witness, datagram=x["b"]),
+                          "the client wrote the Empty message %s, which is not empty" % x["b"])
+            break
     # every CON response delivered to the client is acknowledged (RST when the verdict is FAIL)
     for e in rx_client:
         b = bytes.fromhex(e["b"])
@@ -310,7 +324,8 @@ def work(job):
             else:
                 r = common.rng("c07-%s" % (it,))
                 style = r.choice(STYLES)
-                w, sim = setup(exe, r.getrandbits(30), style)
+                echo = r.random() < 0.2
+                w, sim = setup(exe, r.getrandbits(30), style, echo=echo)
                 nreq = r.choice([1, 2, 3])
                 reqs = [(r.choice([0, 0, 0, 1]), r.choice(METHODS), bytes([0xd0 + k, r.getrandbits(8)]))
                         for k in range(nreq)]
